@@ -116,7 +116,10 @@ def run(ctx):
             rd.bad(f, "address-order", "comparator orders elements by their addresses (`%s`): the result depends on the allocator" % bad[1], bad[0].get("line"))
         else:
             rd.ok(f, "address-order", "comparator never compares or subtracts the element addresses themselves", f.line)
-    return [ra, rb, rc, rd, r12_2(prog, scope), r12_3(prog)]
+    from . import c11
+    r4 = Rule("R12.4", "what a type copies from a type of another module does not depend on which module was processed first (module-wide pass barriers)", floor=1)
+    c11.module_barriers_rule(prog, tab.get("module_barriers", []), r4)
+    return [ra, rb, rc, rd, r12_2(prog, scope), r12_3(prog), r4]
 
 
 def r12_3(prog):
